@@ -704,6 +704,7 @@ class Sim:
         self.blackhole = {}      # (src,dst) -> us until which callers block
         self.slow = {}           # (src,dst) -> extra seconds
         self.next_pid = collections.Counter()
+        self.puppets = {}
         self.make_collector = None
         self.event_drop = None   # callable(src_inst, dst_nick, header, body) -> bool
         self.rpc_filter = None   # callable(rec) -> None|'fault'|'resp_lost'
@@ -722,6 +723,10 @@ class Sim:
         for idx, spec in enumerate(config['instances']):
             node = self.nodes[spec['node']]
             self.by_identifier['%s:%d' % (node['host'], spec['port'])] = spec['nick']
+        for spec in config['instances']:
+            if spec.get('puppet'):
+                from .puppet import Puppet
+                self.puppets[spec['nick']] = Puppet(self, spec)
         _CUR_SIM = self
 
     # --- context --------------------------------------------------------------------------------
@@ -1234,6 +1239,24 @@ class Sim:
         rec = {'t_us': self.now_us, 'src': src_nick, 'dst': dst_nick, 'method': method, 'via': via,
                'src_inc': src.incarnation if src is not None else None}
         self.stats['rpc'] += 1
+        puppet = self.puppets.get(dst_nick) if self.puppets else None
+        if puppet is not None:
+            # a puppet peer: its side of the RPC is answered from a script (no Supvisors behind it)
+            params, _m = xc.loads(data)
+            if (src_nick, dst_nick) in self.cuts:
+                rec['outcome'] = 'refused'
+                self._wire(rec, params)
+                raise ConnectionRefusedError(errno.ECONNREFUSED, 'Connection refused')
+            try:
+                value = puppet.answer(src, method, params)
+            except OSError:
+                rec['outcome'] = 'refused'
+                self._wire(rec, params)
+                raise
+            rec['outcome'] = 'ok'
+            rec['puppet'] = True
+            self._wire(rec, params)
+            return xc.loads(xmlrpc_marshal(value))[0][0]
         if dst is None or not dst.serving or (src_nick and src_nick != dst_nick
                                                and not self.connectable(src_nick, dst_nick)):
             rec['outcome'] = 'refused'
